@@ -32,7 +32,8 @@ print("demo without patch: exit %d; with patch: exit %d" % (rc0, rc1))
 if rc1 != 0: print(o1[-400:])
 # pinned suite with the patch
 junit = "/tmp/sv_%s.xml" % name
-subprocess.run(["/venv/bin/python", "-m", "pytest", "-q", "-p", "no:cacheprovider", "--timeout=900", "--continue-on-collection-errors", "--junitxml=" + junit],
+os.unlink(os.path.join(wt, "_demo.py"))   # the repository's pytest configuration would collect it
+pt = subprocess.run(["/venv/bin/python", "-m", "pytest", "-q", "-p", "no:cacheprovider", "--timeout=900", "--continue-on-collection-errors", "--junitxml=" + junit],
                cwd=wt, capture_output=True, text=True, env={k: v for k, v in os.environ.items() if k not in ("PYTHONPATH", "SKTIME_VERIF_SHIM")})
 import ast, xml.etree.ElementTree as ET
 b = json.load(open('/root/.vp/BASELINE.json')); stable = b['stable_pass']
@@ -41,6 +42,7 @@ passed = set('%s::%s' % (tc.get('classname'), tc.get('name')) for tc in ET.parse
 missing = [t for t in stable if t not in passed]
 out["baseline_missing_with_patch"] = len(missing)
 print("pinned suite with patch: %d/%d baseline tests pass" % (len(stable) - len(missing), len(stable)))
+if missing: print(pt.stdout[-1500:], pt.stderr[-500:])
 os.unlink(junit)
 subprocess.run(["git", "-C", "/repo", "worktree", "remove", "--force", wt], capture_output=True)
 shutil.rmtree(wt, ignore_errors=True)
